@@ -1,1 +1,4 @@
 // hook file for ntp-proto/src/system.rs: declares the per-property harness modules
+#[cfg(any(verif_all, verif_c33))]
+#[path = "/verif/harness/ntp-proto/c33.rs"]
+mod c33;
